@@ -102,7 +102,7 @@ func init() {
 		},
 		Run: runC07,
 		Promises: func(core.Tier) map[string][]string {
-			return map[string][]string{"failure_kind": {"storage", "caller", "veto", "rejected-op", "precommit", "batch-storage"},
+			return map[string][]string{"failure_kind": {"storage", "caller", "veto", "rejected-op", "precommit", "batch-storage"}, "precommit_registration": {"before-call batch=false", "before-call batch=true"},
 				"veto_site": {"emps:1:parent=false", "emps:2:parent=false", "emps:3:parent=true", "emps/xt:3:parent=false", "depts:3:parent=false", "emps/ext:3:parent=false", "emps:1:parent=true", "emps:2:parent=true"}}
 		},
 		MinCounters: func(core.Tier) map[string]int64 { return map[string]int64{"injections": 1500, "bodies_committed": 100} },
@@ -150,6 +150,7 @@ func runC07(c *core.Ctx, idx int) {
 		n      int        // storage: n-th primitive; caller: after p ops; veto: k-th call; precommit: which of three
 		splice *kmodel.Op // rejected op spliced at position n
 		batch  bool
+		pre    bool // precommit: actions registered on the context before the call
 	}
 
 	// runBody executes ops (+ injection) in one transaction and returns the tx error plus per-op errors.
@@ -171,6 +172,21 @@ func runC07(c *core.Ctx, idx int) {
 		if route == 2 {
 			ctx = boltz.NewSystemMutateContext(ctx)
 		}
+		// pre-commit actions are registered either inside the body (on every attempt) or once, on the context,
+		// before Db.Update / Db.Batch is called
+		preRegistered := in != nil && in.kind == "precommit" && in.pre
+		if preRegistered {
+			for i := 0; i < 3; i++ {
+				i := i
+				ctx.AddPreCommitAction(func(boltz.MutateContext) error {
+					if i == in.n {
+						return errPreCommit
+					}
+					return nil
+				})
+			}
+			c.Cover("precommit_registration", fmt.Sprintf("before-call batch=%v", in.batch))
+		}
 		body := func(ctx boltz.MutateContext) error {
 			reg := ctx
 			if route == 1 {
@@ -188,7 +204,7 @@ func runC07(c *core.Ctx, idx int) {
 				case "veto":
 					s.vetoAt = in.n
 				case "precommit":
-					for i := 0; i < 3; i++ {
+					for i := 0; i < 3 && !preRegistered; i++ {
 						i := i
 						reg.AddPreCommitAction(func(boltz.MutateContext) error {
 							if i == in.n {
@@ -268,7 +284,7 @@ func runC07(c *core.Ctx, idx int) {
 			injections = append(injections, inj{kind: "veto", n: k, batch: k%7 == 0})
 		}
 		for i := 0; i < 3; i++ {
-			injections = append(injections, inj{kind: "precommit", n: i})
+			injections = append(injections, inj{kind: "precommit", n: i}, inj{kind: "precommit", n: i, pre: true}, inj{kind: "precommit", n: i, pre: i != 1, batch: true})
 		}
 		// rejected operations at every position: generated against the model state after the first p ops
 		for p := 0; p <= len(ops); p++ {
